@@ -4,7 +4,9 @@ package main
 // and minimal forms of every defect class found on the unchanged tree). They run in every tier before the random rounds.
 
 import (
+	"bytes"
 	"encoding/binary"
+	"fmt"
 	"os"
 )
 
@@ -69,6 +71,36 @@ func c04Scenarios() []c04Scenario {
 	add("mdat directly after a fragmented init", c04Cat(initSeg, mdat))
 	add("emsg then mdat", c04Cat(box("emsg", c04Cat(c04U32(0), []byte("a\x00b\x00"), c04U32(1, 0, 0, 0))), mdat))
 	add("mfra with mfro but no tfra", box("mfra", box("mfro", c04U32(0, 24))))
+	// mfra boxes with several tfra boxes of equal / different entry counts and offsets (ISM-flag path reads them first)
+	tfra := func(track uint32, offs ...uint32) []byte {
+		p := c04U32(0, track, 0, uint32(len(offs)))
+		for i, o := range offs {
+			p = append(p, c04U32(uint32(i)*1000, o)...)
+			p = append(p, 1, 1, 1)
+		}
+		return box("tfra", p)
+	}
+	mfra := func(tfras ...[]byte) []byte {
+		body := c04Cat(tfras...)
+		return box("mfra", c04Cat(body, box("mfro", c04U32(0, uint32(8+len(body)+16)))))
+	}
+	frag1 := c04Cat(box("moof", c04Cat(mfhd, box("traf", c04Cat(tfhd, trun2)))), mdat)
+	pre := c04Cat(initSeg, frag1)
+	o1 := uint32(len(initSeg))
+	for _, v := range []struct {
+		name string
+		m    []byte
+	}{
+		{"two tfra, second longer", mfra(tfra(1, o1), tfra(2, o1, o1+100, o1+200))},
+		{"two tfra, second shorter", mfra(tfra(1, o1, o1+100, o1+200), tfra(2, o1))},
+		{"two tfra, first empty", mfra(tfra(1), tfra(2, o1, o1+100))},
+		{"two tfra, same counts different offsets", mfra(tfra(1, o1, o1+100), tfra(2, o1, o1+50))},
+		{"two tfra, same track", mfra(tfra(1, o1), tfra(1, o1))},
+		{"three tfra, growing", mfra(tfra(1, o1), tfra(2, o1, o1+1), tfra(3, o1, o1+1, o1+2))},
+		{"one tfra, offset beyond the file", mfra(tfra(1, 0xfffffff0))},
+	} {
+		add("mfra: "+v.name, c04Cat(pre, v.m))
+	}
 	add("ftyp without payload", box("ftyp", nil))
 	add("ftyp with 4 payload bytes", box("ftyp", []byte("isom")))
 	add("ftyp with 7 payload bytes", box("ftyp", []byte("isom\x00\x00\x00")))
@@ -101,6 +133,14 @@ func c04Scenarios() []c04Scenario {
 		binary.BigEndian.PutUint32(x[92:], 2999-52)
 		binary.BigEndian.PutUint32(x[68:], 3023-52)
 		add("seig sbgp referring to an sgpd without entries", x)
+		// the sbgp entry's group_description_index set to every interesting value (1-based global, 65536+ fragment-local)
+		if i := bytes.Index(d, []byte("sbgp")); i > 0 && i+24 <= len(d) {
+			for _, v := range []uint32{0, 1, 2, 65535, 65536, 65538, 65539, 0x1ffff, 0x7fffffff, 0xffffffff} {
+				y := append([]byte{}, d...)
+				binary.BigEndian.PutUint32(y[i+20:], v)
+				add(fmt.Sprintf("seig sbgp with group_description_index %d", v), y)
+			}
+		}
 	}
 	add("stsz with uniform size and 2^32-1 samples", box("stsz", c04U32(0, 100, 0xffffffff)))
 	add("trun without per-sample fields and 2^32-1 samples", box("trun", c04U32(0, 0xffffffff)))
